@@ -79,7 +79,15 @@ func (t *Queue[T]) Add(value T, scheduledTime time.Time) (addedElement *QueueEle
 	if t.maxSize > 0 {
 		// heap is bigger than maxSize now; remove the last element (furthest in the future).
 		if size := t.heap.Len(); size > t.maxSize {
-			heap.Remove(&t.heap, size-1)
+			// the dropped element counts as canceled: whoever still holds it (e.g. the TaskExecutor's tracking of the
+			// pending task of an identifier) can tell that it is not going to be delivered
+			if dropped, ok := heap.Remove(&t.heap, size-1).(*generalheap.HeapElement[HeapKey, *QueueElement[T]]); ok {
+				select {
+				case <-dropped.Value.cancel:
+				default:
+					close(dropped.Value.cancel)
+				}
+			}
 		}
 	}
 
